@@ -199,12 +199,16 @@ def _generic_layer(tree, ob):
     sa_ = one(stores, 'field store in CborArray.do_dissect', ob)
     facts = fa.facts(sa_) or frozenset()
     consumed = any(('orig_s' in t and (('==' in t and p_ is False) or ('!=' in t and p_ is True))) for (t, p_) in facts)
-    by_value = any(('data_val' in t) for (t, p_) in facts)
+    vname = sa_.value.id if isinstance(sa_.value, ast.Name) else 'data_val'
+    by_value = any(norm.mentions(t, [vname]) or ('data_val' in t) for (t, p_) in facts)
     if consumed and not by_value:
         ob.site(CPKT, sa_, 'a field is stored exactly when an item was consumed for it')
+    elif not by_value:
+        # some other test that does not look at the decoded value (a count of the items taken, the length of what is left)
+        ob.site(CPKT, sa_, 'whether a field is stored does not depend on the decoded value ({})'.format(', '.join(sorted(t for (t, p_) in facts))[:60] or 'unconditional'))
     else:
         ob.violate(CPKT, fa.qual, src(sa_)[:60] + '  under ' + ', '.join(sorted(t for (t, p_) in facts if 'data_val' in t or 'orig_s' in t))[:60], 'whether a decoded field is stored depends on its value, not on whether an item '
-                   'was consumed: a null item in place of a field with a default decodes as the default and is re-encoded as the default (a corrupted block re-encodes as the original)', sa_)
+                   'was consumed: a null item in place of a field with a default decodes as the default and is re-encoded as the default (a corrupted block re-encodes as the original)', sa_, sure=True)
     for cname in ('EnumField', 'FlagsField'):
         fm = FuncView(tree, CFLD, cname + '.m2i')
         hs = [h for h in walk_local(fm.func) if isinstance(h, ast.ExceptHandler)]
